@@ -93,6 +93,13 @@ MUTANTS = [
     ('c05-only-first-occurrence-rewritten-unfixed', 'C05', 'c05', 150, 'python/experiment/model/frontends/flowir.py',
      "        value = re.sub(pattern, lambda matched: rewrites[matched.group(0)], value)\n",
      "        value = re.sub(pattern, lambda matched: rewrites[matched.group(0)], value, 1)\n"),
+    ('c05-own-components-removed-from-shared-set-unfixed', 'C05', 'c05', 150, 'python/experiment/model/frontends/flowir.py',
+     "                foreign_ids.remove((comp.get('stage', 0) + doc_stage, comp['name']))\n\n            dw_components, new_dw_doc",
+     "                component_ids.remove((comp.get('stage', 0) + doc_stage, comp['name']))\n\n            dw_components, new_dw_doc"),
+    ('c05-placeholders-missing-from-foreign-components-unfixed', 'C05', 'c05', 150, 'python/experiment/model/graph.py',
+     "        foreign_components = set(foreign_components).union(FlowIR.discover_placeholder_identifiers(foreign_components))\n", ""),
+    ('c07-component-order-from-a-set-unfixed', 'C07', 'c07', 100, 'python/experiment/model/frontends/flowir.py',
+     "        for comp_id in sorted(comp_identifiers):\n            stage, name = comp_id", "        for comp_id in comp_identifiers:\n            stage, name = comp_id"),
     ('c14-instance-description-written-in-place', 'C14', 'c14rt', 192, 'python/experiment/model/conf.py',
      "        temp_file = '%s.%s.tmp' % (instance_file, uuid.uuid4())\n", "        temp_file = instance_file\n"),
     ('c14-status-written-in-place', 'C14', 'c14rt', 192, 'python/experiment/model/data.py',
